@@ -2581,7 +2581,12 @@ int32 parseCertificateRequest(ssl_t *ssl,
         while (len >= 2)
         {
             uint32_t val = HASH_SIG_MASK(c[0], c[1]);
-            keySelect->peerSigAlgs[nSigAlg++] = val;
+            /* peerSigAlgs[] holds TLS_MAX_SIGNATURE_ALGORITHMS entries; further
+               ones still count for the mask (as in the ClientHello parser) */
+            if (nSigAlg < TLS_MAX_SIGNATURE_ALGORITHMS)
+            {
+                keySelect->peerSigAlgs[nSigAlg++] = val;
+            }
             ssl->peerSigAlg |= val;
             c += 2;
             len -= 2;
